@@ -202,3 +202,36 @@ var delimsBad = [...]rune{
 	0x2991, 0x2992, 0x2993, 0x2994, 0x2995, 0x2996, 0x2997, 0x2998, 0x29d8, 0x29d9, 0x29da, 0x29db, 0x29fc, 0x29fd, 0x2e42, 0x3008,
 	0x3009, 0x300a, 0x300b, 0x300c,
 }
+
+// the ornate parentheses have their categories against the code point order: handled apart by the code (Good), or not (Bad)
+var delimsOrnate = [...]rune{
+	0x0028, 0x0029, 0x005b, 0x005d, 0x007b, 0x007d, 0x0f3a, 0x0f3b, 0x0f3c, 0x0f3d, 0x169b, 0x169c, 0x2045, 0x2046, 0x207d, 0x207e,
+	0x208d, 0x208e, 0x2308, 0x2309, 0x230a, 0x230b, 0x2329, 0x232a, 0x2768, 0x2769, 0x276a, 0x276b, 0x276c, 0x276d, 0x276e, 0x276f,
+	0x2770, 0x2771, 0x2772, 0x2773, 0x2774, 0x2775, 0x27c5, 0x27c6, 0x27e6, 0x27e7, 0x27e8, 0x27e9, 0x27ea, 0x27eb, 0x27ec, 0x27ed,
+	0xfd3e, 0xfd3f,
+}
+
+func ornateIsOpen(index int) bool {
+	switch delimsOrnate[index] {
+	case 0xfd3e:
+		return false
+	case 0xfd3f:
+		return true
+	}
+	return index%2 == 0
+}
+
+func ornateOpening(closeIndex int) int {
+	switch delimsOrnate[closeIndex] {
+	case 0xfd3e:
+		return closeIndex + 1
+	}
+	return closeIndex - 1
+}
+
+var delimsOrnateBad = [...]rune{
+	0x0028, 0x0029, 0x005b, 0x005d, 0x007b, 0x007d, 0x0f3a, 0x0f3b, 0x0f3c, 0x0f3d, 0x169b, 0x169c, 0x2045, 0x2046, 0x207d, 0x207e,
+	0x208d, 0x208e, 0x2308, 0x2309, 0x230a, 0x230b, 0x2329, 0x232a, 0x2768, 0x2769, 0x276a, 0x276b, 0x276c, 0x276d, 0x276e, 0x276f,
+	0x2770, 0x2771, 0x2772, 0x2773, 0x2774, 0x2775, 0x27c5, 0x27c6, 0x27e6, 0x27e7, 0x27e8, 0x27e9, 0x27ea, 0x27eb, 0x27ec, 0x27ed,
+	0xfd3e, 0xfd3f,
+}
